@@ -383,7 +383,7 @@ Proof.
     rewrite forallb_forall in AM. specialize (AM mo Hmo). unfold between in AM. lia. }
   assert (Hwk : 0 <= wkst rl <= 6).
   { rewrite Nwk. match goal with H : between 0 6 (r_wkst r) = true |- _ => unfold between in H end. lia. }
-  apply (yearly_iter_correct2 r rl HN HW Hfr).
+  apply (yearly_iter_correct2 r rl HN HW Hfr 1 9999); [| | |apply (start_year_range r HW)|intros j _; unfold okp_y; lia].
   - intros y m Hy. apply (rebuild_nth_succeeds_ym rl y m Hy Hwk Nfr TB RM TN TE PK).
   - intros y m ii y' Hy Ar Hy' Hne.
     destruct (rebuild_slots rl y m ii Hy Ar) as (LY & EM).
